@@ -37,6 +37,17 @@ def run(tier, seed):
     vf.log(f"[C05] X: {x.distinct} layouts in model; scenarios {len(scenarios)}")
     out, verdict, vr, tp = PIPE.run(vh, wd, scenarios, seed)
     cnt = verdict["cnt"]
+    # the same layouts with every page inflated around its symbols (the bounds kernels work on blocks of
+    # 8..64 values), in the build with the assembly kernels and in the portable one
+    pg = ("verif", "purego")
+    vh_pg = vf.build_vh(tags=pg)
+    base = rnd.sample(chosen, 200 if quick else len(chosen))
+    wide = [{"id": i + 1, "pages": s["pages"], "stretch": (9, 20, 70)[i % 3]} for i, s in enumerate(base)]
+    for name, v, tags in (("wide", vh, None), ("wide-purego", vh_pg, pg)):
+        _, w, wr, _ = PIPE.run(v, wd, wide, seed, out=out, name=name, tags=tags)
+        for k, n in w["cnt"].items():
+            cnt[k] += n
+        verdict["consumed"] += w["consumed"]
     if cnt["chunks"] + cnt["flagged"] < cnt["traces"] // 2:
         raise vf.Infra(f"dead driver: {cnt}")
     rc = out.report()
@@ -51,6 +62,7 @@ def run(tier, seed):
         "exhaustive": not quick, "known_findings": sorted(out.kf_hits),
     }, [
         "layouts: <=3 pages x <=2 values over {null, special, 1, 2, 3}; the special symbol is NaN for float kinds and an extreme value otherwise",
+        "a sample of the layouts is run again with each page inflated to up to 9/20/70 values around its symbols, in the default and the purego build",
         "units whose non-null values are all NaN, and metadata that is not recorded, carry no obligation",
         "decimal / int96 / be128 orders and statistics copied by the verbatim-copy path are not covered here (C11 covers the copy path)",
     ], time.time() - t0, len(out.violations))
